@@ -65,6 +65,10 @@ def case_strategy(draw):
         if draw(st.booleans()):
             c["Lambda"] = draw(cases.f(-0.5, 0.5))
     c["kw"] = dict(clear_cache_every_nbr_calc=10**6)
+    c["first"] = draw(st.sampled_from(
+        [None] + [d[0] for d in DT_KEYS] + ["Momentumup3", "Hamiltonian",
+                                            "rho_n_fromHam",
+                                            "fluxup3_n_fromMom"]))
     return c
 
 
@@ -109,6 +113,13 @@ def test_case(case, note):
         rel, ex, fd, trim = su.build(lvl,
                                      extra=fluid_extra if fluid else None)
         out = {}
+        if case.get("first"):
+            # which key is computed first on the fresh instance varies
+            try:
+                out[case["first"]] = rel[case["first"]]
+            except Exception as e:  # noqa: BLE001
+                note.fail(f"{case['first']}:raises", dict(
+                    error=f"{type(e).__name__}: {e}"))
         for k in ZERO_KEYS + [n[0] for n in NORM_KEYS] + \
                 [d[0] for d in DT_KEYS] + \
                 ["rho_n_fromHam", "fluxup3_n_fromMom", "rho_n", "fluxup3_n",
@@ -197,10 +208,14 @@ KW = dict(clear_cache_every_nbr_calc=10**6)
 
 def generic_cases():
     out = []
-    for o, Lam, form in ((4, 0.3, "components"), (2, -0.2, "tensors"),
-                         (6, 0.0, "components")):
+    for o, Lam, form, first in ((4, 0.3, "components", "dtKtrace"),
+                                (2, -0.2, "tensors", "dtAdown3_bssnok"),
+                                (6, 0.0, "components", "dtgammaup3"),
+                                (4, 0.1, "components",
+                                 "dtgammadown3_bssnok")):
         out.append(dict(cases.generic_W(o), Lambda=Lam, form=form,
-                        matter="Tdown4", vacuum=False, trim=3, kw=KW))
+                        matter="Tdown4", vacuum=False, trim=3, kw=KW,
+                        first=first))
     out.append(dict(cases.generic_KS(4, trim=3), Lambda=0.0, form="components",
                     matter="none", vacuum=True, trim=3, kw=KW))
     out.append(dict(cases.generic_PP(2, trim=3), Lambda=0.0, form="tensors",
